@@ -2,3 +2,4 @@ pub mod corpus;
 pub mod gram;
 pub mod mutate;
 pub mod tok;
+pub mod sem;
